@@ -180,7 +180,64 @@ def r07_3(prog: Program, rep: Report):
     return n
 
 
+def text_is_no_collection(prog: Program, rep: Report, rule: str):
+    """An element of a str is a str, and a one-character string is its own only element.  A routine that converts the elements of
+    its input with a *member routine* (a routine slot of its own) must therefore not iterate text: for a recursive type
+    (`Tree = dict[str, Tree | str]`) the member routine of a text leaf would be handed the same leaf again, without end.
+    Every path of such a routine that iterates the input through serdes.itervalues / iteritems establishes first that the
+    iterated object is not text (inspection.istexttype of its class, or an isinstance test against str)."""
+    n = 0
+    SRC = (f"{C.SERDES}.itervalues", f"{C.SERDES}.iteritems")
+    for d in ("marshal", "unmarshal"):
+        for c in C.routine_classes(prog, d):
+            f = C.call_of(prog, c)
+            if f is None:
+                continue
+            try:
+                ps = P.paths_of(prog, f)
+            except Exception:
+                continue
+            bad = []
+            m = 0
+            for p in ps:
+                if p.exit[0] != "return":
+                    continue
+                # comprehensions over itervalues/iteritems(X) whose element applies a routine held in a slot of self
+                sites = []
+                for tm in p.all_terms():
+                    for x in T.walk(tm):
+                        if x[0] == "comp" and x[3] and T.is_call_to(x[3][0][0], *SRC) and x[3][0][0][2]:
+                            applies = T.contains(x[2], lambda y: y[0] == "call" and y[1][0] == "attr" and y[1][1] == C.SELF and not y[3] and T.contains(("tuple", y[2]), lambda z: z[0] in ("elem", "key", "value", "unpack")))
+                            if applies:
+                                sites.append(x[3][0][0][2][0])
+                if not sites:
+                    continue
+                atoms = T.derive_atoms(p.guards())
+                for subject in dict.fromkeys(sites):
+                    n += 1
+                    m += 1
+
+                    def not_text(a, val, subject=subject):
+                        if val:
+                            return False
+                        if T.is_call_to(a, f"{C.INSP}.istexttype", f"{C.INSP}.isstringtype") and a[2] and a[2][0] in (("attr", subject, "__class__"), ("call", ("ref", "builtins.type"), (subject,), ())):
+                            return True
+                        if T.is_call_to(a, "builtins.isinstance") and a[2][:1] == (subject,) and T.contains(a[2][1], lambda z: z == ("ref", "builtins.str")):
+                            return True
+                        return False
+
+                    if not any(not_text(a, val) for a, val in atoms):
+                        bad.append(T.show(subject)[:40])
+            if m:
+                rep.check(not bad, rule, c.qualname, f.loc, f"{m} iteration path(s) that apply a member routine to the elements of the input exclude text first", f"the member routine is applied to the characters of a text input (elements of {sorted(set(bad))[:2]}): a one-character string is its own element, so for a recursive type a text leaf is handed to the same routine for ever -- Tree = dict[str, Tree | str]: marshal({{'a': 'x'}}, t=Tree) and unmarshal(Tree, {{'a': 'x'}}) end in RecursionError (so does the Record alias of the test models for any string leaf)", detail="text-is-no-collection")
+    if not n:
+        rep.undecided(rule, "typelib", "", "no routine converts the elements of its input with a member routine", detail="text-is-no-collection")
+        return
+
+
 def run(prog: Program, rep: Report, tier: str):
+    rep.rule("R07.8", "text is not iterated as a collection of members (a one-character string is its own element)", floor=4)
+    text_is_no_collection(prog, rep, "R07.8")
     rep.rule("R07.1", "worklist/visited discipline of the graph walk", floor=4)
     rep.rule("R07.2", "forward references dispatch to the lazy proxy first", floor=2)
     rep.rule("R07.3", "no build-time path into the memoised factories", floor=14)
@@ -204,5 +261,6 @@ def run(prog: Program, rep: Report, tier: str):
     sub.rule("R07.7", "", 0)
     c11.r11_7(prog, sub, rule="R07.7")
     absorb(rep, sub, {"R07.7": "R07.7"})
+    c11.module_binds_name(prog, rep, "R07.7")  # (a classic recursive value alias reports `typing` as its module)
     c03.r03_1(prog, rep, direction="unmarshal", rule="R07.5")
     c03.r03_1(prog, rep, direction="marshal", rule="R07.5")
